@@ -7,6 +7,7 @@
 mod rng;
 mod gen;
 mod c01;
+mod c02;
 mod c06;
 mod c07;
 mod c09;
@@ -27,6 +28,7 @@ fn exec_line(line: &str) -> String {
         let a: Vec<&str> = args.iter().map(|s| s.as_str()).collect();
         match prop.as_str() {
             "C01" => c01::exec(&op, &a),
+            "C02" => c02::exec(&op, &a),
             "C06" => c06::exec(&op, &a),
             "C07" => c07::exec(&op, &a),
             "C09" => c09::exec(&op, &a),
@@ -74,6 +76,7 @@ fn main() {
             };
             match prop {
                 "C01" => c01::generate(&mut rng, tier, shard, nshards, &mut emit),
+                "C02" => c02::generate(&mut rng, tier, shard, nshards, &mut emit),
                 "C06" => c06::generate(&mut rng, tier, shard, nshards, &mut emit),
                 "C07" => c07::generate(&mut rng, tier, shard, nshards, &mut emit),
                 "C09" => c09::generate(&mut rng, tier, shard, nshards, &mut emit),
